@@ -290,6 +290,16 @@ func main() {
 			}
 		}
 	}
+	// RSASSA-PSS through the builder, every way of naming the salt length
+	for _, so := range []string{"pss-auto", "pss-equals-hash", "pss-salt-20"} {
+		for _, hh := range []string{"sha256", "sha384"} {
+			for _, content := range []string{"data", "detached"} {
+				for _, stamp := range []string{"none", "rfc3161"} {
+					built = append(built, builtCase{Key: "rsaA", Hash: hh, Content: content, Attrs: "time", Stamp: stamp, TSA: "dergen", SigOpts: so})
+				}
+			}
+		}
+	}
 	// chains with a cross-certified intermediate / a repeated leaf through the base case and the detach path
 	for _, chain := range []string{"cross", "repeated"} {
 		for _, k := range []string{"rsaA", "p256A"} {
